@@ -948,11 +948,11 @@ class NetConnections:
                     if filter_pid is not None and filter_pid != pid:
                         continue
                     else:
-                        if len(tokens) >= 8:
-                            # the path may contain spaces
-                            path = line.split(None, 7)[7].rstrip('\n')
-                        else:
-                            path = ''
+                        # The kernel prints exactly one space between
+                        # the inode and the name; the name may contain
+                        # (and start or end with) spaces.
+                        rest = line.split(None, 6)[6]
+                        path = rest.partition(' ')[2].rstrip('\n')
                         type_ = _common.socktype_to_enum(int(type_))
                         # XXX: determining the remote endpoint of a
                         # UNIX socket on Linux is not possible, see:
